@@ -30,4 +30,5 @@ Definition gb_nontrivial (c : gb_case) : bool :=
               || negb (Nat.eqb (length (gc_kinds c) + length (gc_shapes c)) 0)
   | TGerror => e "SkipConvertGen" || negb (Nat.eqb (length (gc_shapes c)) 0)
   | TGsort => negb (Nat.eqb (length (gc_shapes c)) 0)
+  | TMulti => true
   end.
